@@ -425,7 +425,8 @@ KEYWORDS = {'as', 'break', 'const', 'continue', 'crate', 'else', 'enum', 'extern
             'await', 'dyn', 'abstract', 'become', 'box', 'do', 'final', 'macro', 'override', 'priv', 'typeof',
             'unsized', 'virtual', 'yield', 'try', 'gen', 'union', 'superstate', 'state', 'initial'}
 
-STATE_WORDS = ['Idle', 'Active', 'Done', 'Open', 'Closed', 'HTTPServer', 'IOError', 'X', 'A', 'B', 'Q', 'S9', 'Run2Go',
+STATE_WORDS = ['Idle', 'Active', 'Done', 'Open', 'Closed', 'HTTPServer', 'IOError', 'X', 'A', 'B', 'Q', 'S9', 'Run2Go', 'C', 'S', 'T', 'Ok',
+               'Err', 'Some', 'None', 'Result', 'Option', 'Default', 'Debug',
                'LaunchPrep', 'In_Flight', 'lower', 'Zed', 'Alpha', 'Beta', 'Gamma', 'Delta', 'K8s', 'Standby', 'Up',
                'Dn', 'L', 'M', 'N', 'Wait', 'Ready', 'Busy', 'ParseXML', 'Mid', 'Deep', 'Far', 'R2D2', 'Ab', 'AbC']
 SUPER_WORDS = ['Flight', 'Group', 'Outer', 'Inner', 'Net', 'P', 'W', 'Zone', 'Core', 'Shell', 'Top', 'Sub', 'GRP', 'Ring1']
